@@ -1,5 +1,5 @@
 (* C09 with text tags configured, for documents in which no text-tag element has element children: accepting every marked change gives the right document.
-   Corollary of C08_C09_C10_flat_texttags (Properties/C08_flat_texttags.v), where the statement is explained.
+   This is a corollary of C08_C09_C10_flat_texttags (Properties/C08_flat_texttags.v), where the statement is explained.
    This file contains statements only. *)
 From Coq Require Import List NArith ZArith Bool.
 Import ListNotations.
